@@ -1,7 +1,8 @@
 #!/bin/bash
-# tools/collect_seed.sh <Cxx>: copies a sub-agent's seeded change from its scratch worktree into /verif/seeded/<Cxx>/
+# tools/collect_seed.sh <Cxx> [suffix]: copies a sub-agent's seeded change from its scratch worktree /tmp/seed/<Cxx>
+# into /verif/seeded/<Cxx><suffix>/
 set -eu
-ID="$1"; W="/tmp/seed/$ID"; D="/verif/seeded/$ID"
+ID="$1"; SUF="${2:-}"; W="/tmp/seed/$ID"; D="/verif/seeded/$ID$SUF"
 mkdir -p "$D"
 git -C "$W" diff -- . ':(exclude)SEED_*' ':(exclude)*zz_seed_demo_test.go' > "$D/patch.diff"
 demo=$(cd "$W" && git status --porcelain | grep -o '[^ ]*zz_seed_demo_test.go' | head -1)
